@@ -2,6 +2,7 @@
   C20 — DOT export and listing describe the scheduler tree faithfully.
 -/
 import AJ.Spec
+import AJ.Proofs.C15
 namespace AJ.Proofs.C20
 open AJ
 
@@ -63,7 +64,9 @@ theorem foldlM_rel {α β γ ε : Type} (s1 : β → α → Except ε β) (s2 : 
 
 /-! ### helpers: `middleEntry`, `middleExit`, `edgesOf` -/
 
-theorem middleEntry_atomic (t : T) : ∀ (fuel s r : Nat), middleEntry t fuel s = .ok r → t.isSched r = false := by
+/-- `_middle_entry_job` returns an atomic job, or a scheduler without jobs (which stands for itself) -/
+theorem middleEntry_atomic (t : T) : ∀ (fuel s r : Nat), middleEntry t fuel s = .ok r →
+    t.isSched r = false ∨ t.mem r = [] := by
   intro fuel
   induction fuel with
   | zero => intro s r h; simp [middleEntry] at h
@@ -72,12 +75,17 @@ theorem middleEntry_atomic (t : T) : ∀ (fuel s r : Nat), middleEntry t fuel s 
     unfold middleEntry at h
     simp only at h
     split at h
-    · simp at h
+    · rename_i he
+      injection h with h; subst h
+      exact Or.inr (List.isEmpty_iff.1 he)
     · split at h
-      · exact ih _ _ h
-      · injection h with h; subst h; simp_all
+      · simp at h
+      · split at h
+        · exact ih _ _ h
+        · injection h with h; subst h; simp_all
 
-theorem middleExit_atomic (t : T) : ∀ (fuel s r : Nat), middleExit t fuel s = .ok r → t.isSched r = false := by
+theorem middleExit_atomic (t : T) : ∀ (fuel s r : Nat), middleExit t fuel s = .ok r →
+    t.isSched r = false ∨ t.mem r = [] := by
   intro fuel
   induction fuel with
   | zero => intro s r h; simp [middleExit] at h
@@ -86,15 +94,35 @@ theorem middleExit_atomic (t : T) : ∀ (fuel s r : Nat), middleExit t fuel s = 
     unfold middleExit at h
     simp only at h
     split at h
-    · simp at h
+    · rename_i he
+      injection h with h; subst h
+      exact Or.inr (List.isEmpty_iff.1 he)
     · split at h
-      · exact ih _ _ h
-      · injection h with h; subst h; simp_all
+      · simp at h
+      · split at h
+        · exact ih _ _ h
+        · injection h with h; subst h; simp_all
 
-/-- an edge item whose endpoints are atomic and whose cluster annotations are schedulers -/
+/-- an end of an edge: an atomic job, or an empty scheduler whose cluster the edge names -/
+def GoodEnd (t : T) (x : Nat) (cl : Option Nat) : Prop :=
+  t.isSched x = false ∨ (t.isSched x = true ∧ t.mem x = [] ∧ ∃ c, cl = some c)
+
+theorem goodEnd_of_atomic {t : T} {x : Nat} {cl : Option Nat} (h : t.isSched x = false) : GoodEnd t x cl :=
+  Or.inl h
+
+theorem goodEnd_of_middle {t : T} {x c : Nat} (h : t.isSched x = false ∨ t.mem x = []) : GoodEnd t x (some c) := by
+  cases hx : t.isSched x with
+  | false => exact Or.inl hx
+  | true =>
+    rcases h with h | h
+    · rw [hx] at h; cases h
+    · exact Or.inr ⟨hx, h, c, rfl⟩
+
+/-- an edge item whose endpoints are atomic (or empty schedulers named by `ltail` / `lhead`) and whose cluster
+    annotations are schedulers -/
 def GoodEdge (t : T) : Item → Prop
   | .edge src dst lh lt =>
-      t.isSched src = false ∧ t.isSched dst = false ∧
+      GoodEnd t src lt ∧ GoodEnd t dst lh ∧
       (∀ c, lh = some c → t.isSched c = true) ∧ (∀ c, lt = some c → t.isSched c = true)
   | _ => False
 
@@ -123,24 +151,25 @@ theorem edgesOf_spec (t : T) (F j : Nat) (es : List Item) (h : edgesOf t F j = .
           · simp at hs
           · rename_i dst hdst
             injection hs with hs; subst hs
-            have h1 := middleExit_atomic _ _ _ _ hsrc
-            have h2 := middleEntry_atomic _ _ _ _ hdst
+            have h1 := goodEnd_of_middle (c := r) (middleExit_atomic _ _ _ _ hsrc)
+            have h2 := goodEnd_of_middle (c := j) (middleEntry_atomic _ _ _ _ hdst)
             refine ⟨by simp [hk, ekey], ?_⟩
             intro i hi
             rcases List.mem_append.1 hi with hi | hi
             · exact hg i hi
-            · simp at hi; subst hi; simp [GoodEdge, *]
+            · simp at hi; subst hi; exact ⟨h1, h2, by simp [hj], by simp [hr]⟩
       · rename_i hr
         split at hs
         · simp at hs
         · rename_i dst hdst
           injection hs with hs; subst hs
-          have h2 := middleEntry_atomic _ _ _ _ hdst
+          have h2 := goodEnd_of_middle (c := j) (middleEntry_atomic _ _ _ _ hdst)
           refine ⟨by simp [hk, ekey], ?_⟩
           intro i hi
           rcases List.mem_append.1 hi with hi | hi
           · exact hg i hi
-          · simp at hi; subst hi; simp [GoodEdge, *]
+          · simp at hi; subst hi
+            exact ⟨goodEnd_of_atomic (by simpa using hr), h2, by simp [hj], by simp⟩
     · rename_i hj
       split at hs
       · rename_i hr
@@ -148,19 +177,21 @@ theorem edgesOf_spec (t : T) (F j : Nat) (es : List Item) (h : edgesOf t F j = .
         · simp at hs
         · rename_i src hsrc
           injection hs with hs; subst hs
-          have h1 := middleExit_atomic _ _ _ _ hsrc
+          have h1 := goodEnd_of_middle (c := r) (middleExit_atomic _ _ _ _ hsrc)
           refine ⟨by simp [hk, ekey], ?_⟩
           intro i hi
           rcases List.mem_append.1 hi with hi | hi
           · exact hg i hi
-          · simp at hi; subst hi; simp [GoodEdge, *]
+          · simp at hi; subst hi
+            exact ⟨h1, goodEnd_of_atomic (by simpa using hj), by simp, by simp [hr]⟩
       · rename_i hr
         injection hs with hs; subst hs
         refine ⟨by simp [hk, ekey], ?_⟩
         intro i hi
         rcases List.mem_append.1 hi with hi | hi
         · exact hg i hi
-        · simp at hi; subst hi; simp [GoodEdge, *]
+        · simp at hi; subst hi
+          exact ⟨goodEnd_of_atomic (by simpa using hr), goodEnd_of_atomic (by simpa using hj), by simp, by simp⟩
 
 def nodeOf : Item → Option Nat
   | .node j => some j
@@ -170,6 +201,18 @@ def clusterOf : Item → Option Nat
   | .openCluster j => some j
   | _ => none
 
+def holderId : Item → Option Nat
+  | .holder j => some j
+  | _ => none
+
+@[simp] theorem nodeOf_holder (j : Nat) : nodeOf (.holder j) = none := rfl
+@[simp] theorem clusterOf_holder (j : Nat) : clusterOf (.holder j) = none := rfl
+@[simp] theorem ekey_holder (j : Nat) : ekey (.holder j) = none := rfl
+@[simp] theorem holderId_node (j : Nat) : holderId (.node j) = none := rfl
+@[simp] theorem holderId_open (j : Nat) : holderId (.openCluster j) = none := rfl
+@[simp] theorem holderId_close : holderId .close = none := rfl
+@[simp] theorem holderId_edge (a b : Nat) (c d : Option Nat) : holderId (.edge a b c d) = none := rfl
+@[simp] theorem holderId_holder (j : Nat) : holderId (.holder j) = some j := rfl
 @[simp] theorem nodeOf_node (j : Nat) : nodeOf (.node j) = some j := rfl
 @[simp] theorem nodeOf_open (j : Nat) : nodeOf (.openCluster j) = none := rfl
 @[simp] theorem nodeOf_close : nodeOf .close = none := rfl
@@ -188,6 +231,36 @@ theorem nodeOf_eq : (fun i : Item => match i with | .node j => some j | _ => non
 theorem clusterOf_eq : (fun i : Item => match i with | .openCluster j => some j | _ => none) = clusterOf := by
   funext i; cases i <;> rfl
 
+theorem holderId_eq : (fun i : Item => match i with | .holder j => some j | _ => none) = holderId := by
+  funext i; cases i <;> rfl
+
+@[simp] theorem holderOf_nodeOf (t : T) (anch : List Nat) (j : Nat) : (holderOf t anch j).filterMap nodeOf = [] := by
+  unfold holderOf; split <;> simp
+
+@[simp] theorem holderOf_clusterOf (t : T) (anch : List Nat) (j : Nat) : (holderOf t anch j).filterMap clusterOf = [] := by
+  unfold holderOf; split <;> simp
+
+@[simp] theorem holderOf_ekey (t : T) (anch : List Nat) (j : Nat) : (holderOf t anch j).filterMap ekey = [] := by
+  unfold holderOf; split <;> simp
+
+theorem holderOf_pos {t : T} {anch : List Nat} {j : Nat} (h : ((t.mem j).isEmpty && anch.contains j) = true) :
+    holderOf t anch j = [Item.holder j] := by
+  unfold holderOf; rw [if_pos h]
+
+theorem holderOf_neg {t : T} {anch : List Nat} {j : Nat} (h : ¬ ((t.mem j).isEmpty && anch.contains j) = true) :
+    holderOf t anch j = [] := by
+  unfold holderOf; rw [if_neg h]
+
+theorem holderOf_holderId (t : T) (anch : List Nat) (j : Nat) :
+    (holderOf t anch j).filterMap holderId = if (t.mem j).isEmpty && anch.contains j then [j] else [] := by
+  unfold holderOf; split <;> simp
+
+theorem goodEdges_holderId (t : T) (es : List Item) (h : ∀ i ∈ es, GoodEdge t i) : es.filterMap holderId = [] := by
+  rw [List.filterMap_eq_nil_iff]
+  intro i hi
+  have := h i hi
+  cases i <;> simp [GoodEdge, holderId] at *
+
 theorem goodEdges_nodeOf (t : T) (es : List Item) (h : ∀ i ∈ es, GoodEdge t i) : es.filterMap nodeOf = [] := by
   rw [List.filterMap_eq_nil_iff]
   intro i hi
@@ -201,42 +274,42 @@ theorem goodEdges_clusterOf (t : T) (es : List Item) (h : ∀ i ∈ es, GoodEdge
   cases i <;> simp [GoodEdge, clusterOf] at *
 
 /-- unfolding of `dotBody` at successor fuel as a fold -/
-theorem dotBody_succ (t : T) (F fuel s : Nat) (items : List Item) (h : dotBody t F (fuel + 1) s = .ok items) :
+theorem dotBodyWith_succ (t : T) (anch : List Nat) (F fuel s : Nat) (items : List Item) (h : dotBodyWith t anch F (fuel + 1) s = .ok items) :
     ∃ l, topo t s = .ok l ∧
       l.foldlM (m := Except Err) (init := ([] : List Item)) (fun acc j =>
         if t.isSched j then
-          match dotBody t F fuel j with
+          match dotBodyWith t anch F fuel j with
           | .error e => .error e
           | .ok sub =>
             match edgesOf t F j with
             | .error e => .error e
-            | .ok es => .ok (acc ++ Item.openCluster j :: sub ++ Item.close :: es)
+            | .ok es => .ok (acc ++ Item.openCluster j :: holderOf t anch j ++ sub ++ Item.close :: es)
         else
           match edgesOf t F j with
           | .error e => .error e
           | .ok es => .ok (acc ++ Item.node j :: es)) = .ok items := by
-  unfold dotBody at h
+  unfold dotBodyWith at h
   split at h
   · simp at h
   · rename_i l hl
     exact ⟨l, hl, h⟩
 
 /-- one step of the `dotBody` fold, characterised -/
-theorem dotBody_step (t : T) (F fuel j : Nat) (acc res : List Item)
+theorem dotBodyWith_step (t : T) (anch : List Nat) (F fuel j : Nat) (acc res : List Item)
     (h : (if t.isSched j then
-          match dotBody t F fuel j with
+          match dotBodyWith t anch F fuel j with
           | .error e => .error e
           | .ok sub =>
             match edgesOf t F j with
             | .error e => .error e
-            | .ok es => .ok (acc ++ Item.openCluster j :: sub ++ Item.close :: es)
+            | .ok es => .ok (acc ++ Item.openCluster j :: holderOf t anch j ++ sub ++ Item.close :: es)
         else
           match edgesOf t F j with
           | .error e => .error e
           | .ok es => .ok (acc ++ Item.node j :: es) : Except Err (List Item)) = .ok res) :
     ∃ es, edgesOf t F j = .ok es ∧
-      ((t.isSched j = true ∧ ∃ sub, dotBody t F fuel j = .ok sub ∧
-          res = acc ++ Item.openCluster j :: sub ++ Item.close :: es) ∨
+      ((t.isSched j = true ∧ ∃ sub, dotBodyWith t anch F fuel j = .ok sub ∧
+          res = acc ++ Item.openCluster j :: holderOf t anch j ++ sub ++ Item.close :: es) ∨
        (t.isSched j = false ∧ res = acc ++ Item.node j :: es)) := by
   split at h
   · rename_i hj
@@ -361,15 +434,15 @@ theorem style_shape (c : RenderCtx) (j : Nat) :
     cases c.t.isSched j <;> cases c.t.forever j <;> simp
 
 /-- the node items are, in order, the atomic jobs of `listing`; the cluster items the nested schedulers -/
-theorem dotBody_nodes (t : T) (F fuel s : Nat) (items : List Item) (l : List Nat)
-    (h : dotBody t F fuel s = .ok items) (hl : listing t fuel s = .ok l) :
+theorem dotBodyWith_nodes (t : T) (anch : List Nat) (F fuel s : Nat) (items : List Item) (l : List Nat)
+    (h : dotBodyWith t anch F fuel s = .ok items) (hl : listing t fuel s = .ok l) :
     items.filterMap (fun i => match i with | .node j => some j | _ => none) = l.filter (fun j => !t.isSched j) ∧
     items.filterMap (fun i => match i with | .openCluster j => some j | _ => none) = l.filter (fun j => t.isSched j) := by
   rw [nodeOf_eq, clusterOf_eq]
   induction fuel generalizing s items l with
-  | zero => simp [dotBody] at h
+  | zero => simp [dotBodyWith] at h
   | succ n ih =>
-    obtain ⟨l0, hl0, hf⟩ := dotBody_succ t F n s items h
+    obtain ⟨l0, hl0, hf⟩ := dotBodyWith_succ t anch F n s items h
     obtain ⟨l0', hl0', hf'⟩ := listing_succ t n s l hl
     rw [hl0] at hl0'
     injection hl0' with hl0'
@@ -380,7 +453,7 @@ theorem dotBody_nodes (t : T) (F fuel s : Nat) (items : List Item) (l : List Nat
         a.filterMap clusterOf = b.filter (fun j => t.isSched j))
       ?_ l0 [] [] items l (by simp) hf hf'
     intro j a b a' b' ⟨hr1, hr2⟩ hs1 hs2
-    obtain ⟨es, hes, hcase⟩ := dotBody_step t F n j a a' hs1
+    obtain ⟨es, hes, hcase⟩ := dotBodyWith_step t anch F n j a a' hs1
     obtain ⟨_, hg⟩ := edgesOf_spec t F j es hes
     have hn := goodEdges_nodeOf t es hg
     have hc := goodEdges_clusterOf t es hg
@@ -392,6 +465,135 @@ theorem dotBody_nodes (t : T) (F fuel s : Nat) (items : List Item) (l : List Nat
     · rcases listing_step t n j b b' hs2 with ⟨hj', _⟩ | ⟨_, rfl⟩
       · rw [hj] at hj'; cases hj'
       · simp [List.filterMap_append, List.filterMap_cons, List.filter_append, hr1, hr2, hn, hc, hj]
+
+/-- the invisible nodes are, in order, the anchored nested schedulers without jobs of `listing` -/
+theorem dotBodyWith_holders (t : T) (anch : List Nat) (F fuel s : Nat) (items : List Item) (l : List Nat)
+    (h : dotBodyWith t anch F fuel s = .ok items) (hl : listing t fuel s = .ok l) :
+    items.filterMap (fun i => match i with | .holder j => some j | _ => none) =
+      l.filter (fun j => t.isSched j && ((t.mem j).isEmpty && anch.contains j)) := by
+  rw [holderId_eq]
+  induction fuel generalizing s items l with
+  | zero => simp [dotBodyWith] at h
+  | succ n ih =>
+    obtain ⟨l0, hl0, hf⟩ := dotBodyWith_succ t anch F n s items h
+    obtain ⟨l0', hl0', hf'⟩ := listing_succ t n s l hl
+    rw [hl0] at hl0'
+    injection hl0' with hl0'
+    subst hl0'
+    refine foldlM_rel _ _
+      (fun (a : List Item) (b : List Nat) =>
+        a.filterMap holderId = b.filter (fun j => t.isSched j && ((t.mem j).isEmpty && anch.contains j)))
+      ?_ l0 [] [] items l (by simp) hf hf'
+    intro j a b a' b' hr hs1 hs2
+    obtain ⟨es, hes, hcase⟩ := dotBodyWith_step t anch F n j a a' hs1
+    obtain ⟨_, hg⟩ := edgesOf_spec t F j es hes
+    have hn := goodEdges_holderId t es hg
+    rcases hcase with ⟨hj, sub, hsub, rfl⟩ | ⟨hj, rfl⟩
+    · rcases listing_step t n j b b' hs2 with ⟨_, sub', hsub', rfl⟩ | ⟨hj', _⟩
+      · have i1 := ih j sub sub' hsub hsub'
+        simp only [List.filterMap_append, List.filterMap_cons, List.filter_append, hr, hn, i1,
+          holderOf_holderId, holderId_open, holderId_close, List.append_nil, List.filter_cons, hj, Bool.true_and]
+        simp only [List.isEmpty_iff, List.contains_eq_mem, Bool.and_eq_true, decide_eq_true_eq]
+        split <;> simp
+      · rw [hj] at hj'; cases hj'
+    · rcases listing_step t n j b b' hs2 with ⟨hj', _⟩ | ⟨_, rfl⟩
+      · rw [hj] at hj'; cases hj'
+      · simp [List.filterMap_append, List.filterMap_cons, List.filter_append, hr, hn, hj]
+
+/-- every `holder` item sits right after the `openCluster` of the same scheduler and right before its `close` -/
+def Placed (items : List Item) : Prop :=
+  ∀ pre s post, items = pre ++ Item.holder s :: post →
+    (∃ pre', pre = pre' ++ [Item.openCluster s]) ∧ ∃ post', post = Item.close :: post'
+
+theorem placed_of_no_holder {items : List Item} (h : ∀ s, Item.holder s ∉ items) : Placed items := by
+  intro pre s post e
+  exact absurd (by rw [e]; simp) (h s)
+
+theorem placed_append {a b : List Item} (ha : Placed a) (hb : Placed b) : Placed (a ++ b) := by
+  intro pre s post e
+  rcases List.append_eq_append_iff.1 e with ⟨a', rfl, hb'⟩ | ⟨c', rfl, hc⟩
+  · obtain ⟨⟨p, hp⟩, q⟩ := hb a' s post hb'
+    exact ⟨⟨a ++ p, by rw [hp]; simp⟩, q⟩
+  · cases c' with
+    | nil =>
+      simp only [List.nil_append] at hc
+      obtain ⟨⟨p, hp⟩, _⟩ := hb [] s post hc.symm
+      simp at hp
+    | cons x c'' =>
+      simp only [List.cons_append, List.cons.injEq] at hc
+      obtain ⟨rfl, rfl⟩ := hc
+      obtain ⟨p, q, hq⟩ := ha pre s c'' rfl
+      exact ⟨p, q ++ b, by rw [hq]; simp⟩
+
+theorem placed_goodEdges (t : T) (es : List Item) (h : ∀ i ∈ es, GoodEdge t i) : Placed es :=
+  placed_of_no_holder (fun s hs => by simpa [GoodEdge] using h _ hs)
+
+theorem placed_empty_cluster (j : Nat) : Placed [Item.openCluster j, Item.holder j, Item.close] := by
+  intro pre s post e
+  match pre, e with
+  | [], e => simp at e
+  | [x], e =>
+    simp at e
+    obtain ⟨rfl, rfl, rfl⟩ := e
+    exact ⟨⟨[], rfl⟩, ⟨[], rfl⟩⟩
+  | [x, y], e => simp at e
+  | [x, y, z], e => simp at e
+  | x :: y :: z :: u :: r, e => simp at e
+
+/-- a scheduler without jobs has an empty body -/
+theorem dotBodyWith_empty (t : T) (anch : List Nat) (F fuel j : Nat) (sub : List Item) (he : (t.mem j).isEmpty = true)
+    (h : dotBodyWith t anch F fuel j = .ok sub) : sub = [] := by
+  cases fuel with
+  | zero => simp [dotBodyWith] at h
+  | succ n =>
+    obtain ⟨l0, hl0, hf⟩ := dotBodyWith_succ t anch F n j sub h
+    have hsub := C15.topo_subset t j [] l0 hl0
+    have : l0 = [] := by
+      cases l0 with
+      | nil => rfl
+      | cons x r =>
+        have := hsub x (by simp)
+        rw [List.isEmpty_iff.1 he] at this
+        cases this
+    subst this
+    simp [pure, Except.pure] at hf
+    exact hf
+
+theorem dotBodyWith_placed (t : T) (anch : List Nat) (F fuel s : Nat) (items : List Item)
+    (h : dotBodyWith t anch F fuel s = .ok items) : Placed items := by
+  induction fuel generalizing s items with
+  | zero => simp [dotBodyWith] at h
+  | succ n ih =>
+    obtain ⟨l0, hl0, hf⟩ := dotBodyWith_succ t anch F n s items h
+    refine foldlM_inv _ Placed ?_ l0 [] items (placed_of_no_holder (by simp)) hf
+    intro j a a' hq hs
+    obtain ⟨es, hes, hcase⟩ := dotBodyWith_step t anch F n j a a' hs
+    obtain ⟨_, hg⟩ := edgesOf_spec t F j es hes
+    have hb := placed_goodEdges t es hg
+    rcases hcase with ⟨hj, sub, hsub, rfl⟩ | ⟨hj, rfl⟩
+    · by_cases he : ((t.mem j).isEmpty && anch.contains j) = true
+      · have := dotBodyWith_empty t anch F n j sub (by simp at he; simp [he.1]) hsub
+        subst this
+        have := placed_append hq (placed_append (placed_empty_cluster j) hb)
+        rw [holderOf_pos he]
+        simpa using this
+      · have h1 : Placed ([Item.openCluster j] ++ (sub ++ [Item.close])) :=
+          placed_append (placed_of_no_holder (by simp))
+            (placed_append (ih j sub hsub) (placed_of_no_holder (by simp)))
+        have := placed_append hq (placed_append h1 hb)
+        rw [holderOf_neg he]
+        simpa using this
+    · have h1 : Placed [Item.node j] := placed_of_no_holder (by simp)
+      have := placed_append hq (placed_append h1 hb)
+      simpa using this
+
+/-- the invisible node of an empty nested scheduler is inside its own cluster, which contains nothing else:
+    a `holder s` item comes right after `openCluster s` and right before the `close` of that cluster -/
+theorem dotBodyWith_holder_place (t : T) (anch : List Nat) (F fuel s : Nat) (items : List Item)
+    (h : dotBodyWith t anch F fuel s = .ok items) :
+    ∀ pre j post, items = pre ++ Item.holder j :: post →
+      (∃ pre', pre = pre' ++ [Item.openCluster j]) ∧ ∃ post', post = Item.close :: post' :=
+  dotBodyWith_placed t anch F fuel s items h
 
 /-- clusters are well bracketed: every prefix has at least as many `openCluster` as `close`, the whole list as many -/
 def depthOk : Nat → List Item → Bool
@@ -426,6 +628,14 @@ theorem bal_goodEdges (t : T) (es : List Item) (h : ∀ i ∈ es, GoodEdge t i) 
     | node _ => simp [GoodEdge] at he
     | openCluster _ => simp [GoodEdge] at he
     | close => simp [GoodEdge] at he
+    | holder _ => simp [GoodEdge] at he
+
+theorem bal_holderOf (t : T) (anch : List Nat) (j : Nat) : Bal (holderOf t anch j) := by
+  intro d rest
+  unfold holderOf
+  split
+  · cases d <;> simp [depthOk]
+  · rfl
 
 theorem bal_cluster (j : Nat) (sub : List Item) (h : Bal sub) : Bal (Item.openCluster j :: sub ++ [Item.close]) := by
   intro d rest
@@ -433,27 +643,27 @@ theorem bal_cluster (j : Nat) (sub : List Item) (h : Bal sub) : Bal (Item.openCl
   simp [depthOk] at this ⊢
   rw [this]
 
-theorem dotBody_bal (t : T) (F fuel s : Nat) (items : List Item)
-    (h : dotBody t F fuel s = .ok items) : Bal items := by
+theorem dotBodyWith_bal (t : T) (anch : List Nat) (F fuel s : Nat) (items : List Item)
+    (h : dotBodyWith t anch F fuel s = .ok items) : Bal items := by
   induction fuel generalizing s items with
-  | zero => simp [dotBody] at h
+  | zero => simp [dotBodyWith] at h
   | succ n ih =>
-    obtain ⟨l0, hl0, hf⟩ := dotBody_succ t F n s items h
+    obtain ⟨l0, hl0, hf⟩ := dotBodyWith_succ t anch F n s items h
     refine foldlM_inv _ Bal ?_ l0 [] items bal_nil hf
     intro j a a' hq hs
-    obtain ⟨es, hes, hcase⟩ := dotBody_step t F n j a a' hs
+    obtain ⟨es, hes, hcase⟩ := dotBodyWith_step t anch F n j a a' hs
     obtain ⟨_, hg⟩ := edgesOf_spec t F j es hes
     have hb := bal_goodEdges t es hg
     rcases hcase with ⟨hj, sub, hsub, rfl⟩ | ⟨hj, rfl⟩
-    · have h1 := bal_cluster j sub (ih j sub hsub)
+    · have h1 := bal_cluster j (holderOf t anch j ++ sub) (bal_append (bal_holderOf t anch j) (ih j sub hsub))
       have := bal_append hq (bal_append h1 hb)
       simpa using this
     · have := bal_append hq (bal_append (bal_node j) hb)
       simpa using this
 
-theorem dotBody_brackets (t : T) (F fuel s : Nat) (items : List Item)
-    (h : dotBody t F fuel s = .ok items) : depthOk 0 items = true := by
-  have := dotBody_bal t F fuel s items h 0 []
+theorem dotBodyWith_brackets (t : T) (anch : List Nat) (F fuel s : Nat) (items : List Item)
+    (h : dotBodyWith t anch F fuel s = .ok items) : depthOk 0 items = true := by
+  have := dotBodyWith_bal t anch F fuel s items h 0 []
   simpa [depthOk] using this
 
 /-- every requirement of every listed job is exactly one edge: the logical endpoints of the edge items
@@ -465,14 +675,14 @@ def edgeKey : Item → Option (Nat × Nat)
 theorem edgeKey_eq : edgeKey = ekey := by
   funext i; cases i <;> rfl
 
-theorem dotBody_edges (t : T) (F fuel s : Nat) (items : List Item) (l : List Nat)
-    (h : dotBody t F fuel s = .ok items) (hl : listing t fuel s = .ok l) :
+theorem dotBodyWith_edges (t : T) (anch : List Nat) (F fuel s : Nat) (items : List Item) (l : List Nat)
+    (h : dotBodyWith t anch F fuel s = .ok items) (hl : listing t fuel s = .ok l) :
     (items.filterMap edgeKey).Perm (l.flatMap fun x => (t.req x).map fun r => (x, r)) := by
   rw [edgeKey_eq]
   induction fuel generalizing s items l with
-  | zero => simp [dotBody] at h
+  | zero => simp [dotBodyWith] at h
   | succ n ih =>
-    obtain ⟨l0, hl0, hf⟩ := dotBody_succ t F n s items h
+    obtain ⟨l0, hl0, hf⟩ := dotBodyWith_succ t anch F n s items h
     obtain ⟨l0', hl0', hf'⟩ := listing_succ t n s l hl
     rw [hl0] at hl0'
     injection hl0' with hl0'
@@ -482,12 +692,12 @@ theorem dotBody_edges (t : T) (F fuel s : Nat) (items : List Item) (l : List Nat
         (a.filterMap ekey).Perm (b.flatMap fun x => (t.req x).map fun r => (x, r)))
       ?_ l0 [] [] items l (by simp) hf hf'
     intro j a b a' b' hr hs1 hs2
-    obtain ⟨es, hes, hcase⟩ := dotBody_step t F n j a a' hs1
+    obtain ⟨es, hes, hcase⟩ := dotBodyWith_step t anch F n j a a' hs1
     obtain ⟨hk, _⟩ := edgesOf_spec t F j es hes
     rcases hcase with ⟨hj, sub, hsub, rfl⟩ | ⟨hj, rfl⟩
     · rcases listing_step t n j b b' hs2 with ⟨_, sub', hsub', rfl⟩ | ⟨hj', _⟩
       · have i1 := ih j sub sub' hsub hsub'
-        have e1 : List.filterMap ekey (a ++ Item.openCluster j :: sub ++ Item.close :: es)
+        have e1 : List.filterMap ekey (a ++ Item.openCluster j :: holderOf t anch j ++ sub ++ Item.close :: es)
             = List.filterMap ekey a ++ (List.filterMap ekey sub ++ List.filterMap ekey es) := by
           simp [List.filterMap_append, List.filterMap_cons]
         have e2 : (b ++ j :: sub').flatMap (fun x => (t.req x).map fun r => (x, r))
@@ -508,24 +718,26 @@ theorem dotBody_edges (t : T) (F fuel s : Nat) (items : List Item) (l : List Nat
         rw [e1, e2]
         exact List.Perm.append hr (List.Perm.refl _)
 
-theorem dotBody_allGood (t : T) (F fuel s : Nat) (items : List Item)
-    (h : dotBody t F fuel s = .ok items) :
+theorem dotBodyWith_allGood (t : T) (anch : List Nat) (F fuel s : Nat) (items : List Item)
+    (h : dotBodyWith t anch F fuel s = .ok items) :
     ∀ src dst lh lt, Item.edge src dst lh lt ∈ items → GoodEdge t (Item.edge src dst lh lt) := by
   induction fuel generalizing s items with
-  | zero => simp [dotBody] at h
+  | zero => simp [dotBodyWith] at h
   | succ n ih =>
-    obtain ⟨l0, hl0, hf⟩ := dotBody_succ t F n s items h
+    obtain ⟨l0, hl0, hf⟩ := dotBodyWith_succ t anch F n s items h
     refine foldlM_inv _
       (fun (a : List Item) => ∀ src dst lh lt, Item.edge src dst lh lt ∈ a → GoodEdge t (Item.edge src dst lh lt))
       ?_ l0 [] items (by simp) hf
     intro j a a' hq hs
-    obtain ⟨es, hes, hcase⟩ := dotBody_step t F n j a a' hs
+    obtain ⟨es, hes, hcase⟩ := dotBodyWith_step t anch F n j a a' hs
     obtain ⟨_, hg⟩ := edgesOf_spec t F j es hes
     rcases hcase with ⟨hj, sub, hsub, rfl⟩ | ⟨hj, rfl⟩
     · intro src dst lh lt hm
       simp at hm
-      rcases hm with hm | hm | hm
+      rcases hm with hm | hm | hm | hm
       · exact hq _ _ _ _ hm
+      · unfold holderOf at hm
+        split at hm <;> simp at hm
       · exact ih j sub hsub _ _ _ _ hm
       · exact hg _ hm
     · intro src dst lh lt hm
@@ -534,14 +746,830 @@ theorem dotBody_allGood (t : T) (F fuel s : Nat) (items : List Item)
       · exact hq _ _ _ _ hm
       · exact hg _ hm
 
-/-- edge endpoints are atomic jobs; `lhead`/`ltail` name a scheduler exactly when the requirement's
-    end is a scheduler -/
+/-- edge endpoints: `src` (resp. `dst`) is an atomic job, or an empty scheduler (its invisible node) in which case
+    `ltail` (resp. `lhead`) names a cluster; the clusters `lhead`/`ltail` name are schedulers -/
+theorem dotBodyWith_edge_endpoints (t : T) (anch : List Nat) (F fuel s : Nat) (items : List Item)
+    (h : dotBodyWith t anch F fuel s = .ok items) :
+    ∀ src dst lh lt, Item.edge src dst lh lt ∈ items →
+      (t.isSched src = false ∨ (t.isSched src = true ∧ t.mem src = [] ∧ ∃ c, lt = some c)) ∧
+      (t.isSched dst = false ∨ (t.isSched dst = true ∧ t.mem dst = [] ∧ ∃ c, lh = some c)) ∧
+      (∀ c, lh = some c → t.isSched c = true) ∧ (∀ c, lt = some c → t.isSched c = true) :=
+  dotBodyWith_allGood t anch F fuel s items h
+
+/-! ### `dot_format()` does not raise on a tree whose ids could be assigned (no cycle)
+
+  Since an empty scheduler stands for itself, `_middle_entry_job` / `_middle_exit_job` cannot fail any more on a
+  scheduler whose topological order exists: a non-empty one has a first job (an entry) and a last job (an exit). -/
+
+theorem foldlM_ok_of_steps {α β ε : Type} (step : β → α → Except ε β) :
+    ∀ (l : List α), (∀ a ∈ l, ∀ acc, ∃ r, step acc a = .ok r) → ∀ acc, ∃ r, l.foldlM step acc = .ok r := by
+  intro l
+  induction l with
+  | nil => intro _ acc; exact ⟨acc, rfl⟩
+  | cons a l ih =>
+    intro h acc
+    obtain ⟨r, hr⟩ := h a (by simp) acc
+    obtain ⟨r', hr'⟩ := ih (fun b hb => h b (by simp [hb])) r
+    refine ⟨r', ?_⟩
+    rw [List.foldlM_cons, hr]
+    exact hr'
+
+/-- if the fold of `listing` succeeds, `listing` succeeded on every nested scheduler met -/
+theorem listing_fold_ok (t : T) (fuel : Nat) : ∀ (l0 : List Nat) (acc res : List Nat),
+    l0.foldlM (m := Except Err) (fun acc j =>
+        if t.isSched j then
+          match listing t fuel j with
+          | .error e => .error e
+          | .ok sub => .ok (acc ++ j :: sub)
+        else .ok (acc ++ [j])) acc = .ok res →
+    ∀ j ∈ l0, t.isSched j = true → ∃ sub, listing t fuel j = .ok sub := by
+  intro l0
+  induction l0 with
+  | nil => intro _ _ _ j hj; cases hj
+  | cons a l0 ih =>
+    intro acc res h j hj hs
+    obtain ⟨mid, hmid, hrest⟩ := C15.foldlM_cons_ok _ _ _ _ _ h
+    rcases List.mem_cons.1 hj with rfl | hj
+    · rcases listing_step t fuel j acc mid hmid with ⟨_, sub, hsub, _⟩ | ⟨hj', _⟩
+      · exact ⟨sub, hsub⟩
+      · rw [hs] at hj'; cases hj'
+    · exact ih mid res hrest j hj hs
+
+theorem middleIndex_lt {n : Nat} (h : 0 < n) : middleIndex n < n := by
+  unfold middleIndex; omega
+
+/-- the first job of a topological order is an entry job -/
+theorem entry_exists (t : T) (s : Nat) (l : List Nat) (h : topo t s = .ok l) (hne : t.mem s ≠ []) :
+    entryJobs t s ≠ [] := by
+  have hperm := C15.topo_perm_aux t s [] l h
+  cases l with
+  | nil => exact absurd hperm.symm.eq_nil hne
+  | cons x b =>
+    have hreq : t.req x = [] := by
+      have := C15.topo_order_inv t s (x :: b) h [] x b rfl
+      cases hr : t.req x with
+      | nil => rfl
+      | cons y ys => exact absurd (this y (by rw [hr]; simp)) (by simp)
+    have hx : x ∈ entryJobs t s := by
+      unfold entryJobs
+      rw [List.mem_filter]
+      exact ⟨C15.topo_subset t s [] _ h x (by simp), by simp [hreq]⟩
+    intro he
+    rw [he] at hx
+    cases hx
+
+/-- the last job of a topological order is an exit job (possibly a forever one) -/
+theorem exit_exists (t : T) (s : Nat) (l : List Nat) (h : topo t s = .ok l) (hne : t.mem s ≠ []) :
+    exitJobs t s false ≠ [] := by
+  have hperm := C15.topo_perm_aux t s [] l h
+  have hnd := C15.topo_nodup t s [] l h
+  rcases List.eq_nil_or_concat l with rfl | ⟨a, x, hax⟩
+  · exact absurd hperm.symm.eq_nil hne
+  · rw [List.concat_eq_append] at hax
+    subst hax
+    have hsucc : succOf t s x = [] := by
+      unfold succOf
+      rw [List.filter_eq_nil_iff]
+      intro k hk hxk
+      have hxk : x ∈ t.req k := by simpa using hxk
+      have hkl : k ∈ a ++ [x] := hperm.mem_iff.2 hk
+      obtain ⟨a', b', hab⟩ := List.append_of_mem hkl
+      have hxa : x ∈ a' := C15.topo_order_inv t s _ h a' k b' hab x hxk
+      have hxb : x ∈ k :: b' := by
+        have h1 : (a ++ [x]).getLast? = some x := by simp
+        rw [hab, List.getLast?_append] at h1
+        simp only [Option.or_eq_some_iff] at h1
+        have h2 : (k :: b').getLast? = some x := by
+          rcases h1 with h1 | ⟨h1, _⟩
+          · exact h1
+          · simp at h1
+        exact List.mem_of_getLast? h2
+      rw [hab] at hnd
+      exact (List.nodup_append.1 hnd).2.2 x hxa x hxb rfl
+    have hx : x ∈ exitJobs t s false := by
+      unfold exitJobs
+      rw [List.mem_filter]
+      exact ⟨C15.topo_subset t s [] _ h x (by simp), by simp [hsucc]⟩
+    intro he
+    rw [he] at hx
+    cases hx
+
+/-- `_middle_entry_job` succeeds on every scheduler of a tree on which `listing` succeeds -/
+theorem middleEntry_total (t : T) : ∀ (fuel F x : Nat) (lx : List Nat),
+    t.isSched x = true →
+    (∀ s', (s' = x ∨ Desc t x s') → t.isSched s' = true → ∀ k ∈ t.mem s', s' < k ∧ k < t.n) →
+    t.n - x < F → listing t fuel x = .ok lx → ∃ r, middleEntry t F x = .ok r := by
+  intro fuel
+  induction fuel with
+  | zero => intro F x lx _ _ _ h; simp [listing] at h
+  | succ n ih =>
+    intro F x lx hx hwf hF hl
+    obtain ⟨l0, hl0, hf⟩ := listing_succ t n x lx hl
+    obtain ⟨F', rfl⟩ : ∃ F', F = F' + 1 := ⟨F - 1, by omega⟩
+    unfold middleEntry
+    by_cases he : (t.mem x).isEmpty = true
+    · exact ⟨x, by simp [he]⟩
+    · have hne : t.mem x ≠ [] := fun e => he (by simp [e])
+      have hent := entry_exists t x l0 hl0 hne
+      have hlt := middleIndex_lt (List.length_pos_iff.2 hent)
+      have hc : (entryJobs t x)[middleIndex (entryJobs t x).length]? =
+          some ((entryJobs t x)[middleIndex (entryJobs t x).length]) := List.getElem?_eq_getElem hlt
+      generalize (entryJobs t x)[middleIndex (entryJobs t x).length] = cand at hc
+      have hcm : cand ∈ t.mem x := (List.mem_filter.1 (List.mem_of_getElem? hc)).1
+      simp only [he, hc]
+      cases hcs : t.isSched cand with
+      | false => exact ⟨cand, by simp⟩
+      | true =>
+        have hb := hwf x (Or.inl rfl) hx cand hcm
+        have hcl : cand ∈ l0 := (C15.topo_perm_aux t x [] l0 hl0).mem_iff.2 hcm
+        obtain ⟨sub, hsub⟩ := listing_fold_ok t n l0 [] lx hf cand hcl hcs
+        obtain ⟨r, hr⟩ := ih F' cand sub hcs
+          (fun s' hs' => hwf s' (Or.inr (by
+            rcases hs' with rfl | hs'
+            · exact Desc.child hx hcm
+            · exact Desc.deeper hx hcm hs')))
+          (by omega) hsub
+        exact ⟨r, by simpa using hr⟩
+
+/-- `_middle_exit_job` succeeds on every scheduler of a tree on which `listing` succeeds -/
+theorem middleExit_total (t : T) : ∀ (fuel F x : Nat) (lx : List Nat),
+    t.isSched x = true →
+    (∀ s', (s' = x ∨ Desc t x s') → t.isSched s' = true → ∀ k ∈ t.mem s', s' < k ∧ k < t.n) →
+    t.n - x < F → listing t fuel x = .ok lx → ∃ r, middleExit t F x = .ok r := by
+  intro fuel
+  induction fuel with
+  | zero => intro F x lx _ _ _ h; simp [listing] at h
+  | succ n ih =>
+    intro F x lx hx hwf hF hl
+    obtain ⟨l0, hl0, hf⟩ := listing_succ t n x lx hl
+    obtain ⟨F', rfl⟩ : ∃ F', F = F' + 1 := ⟨F - 1, by omega⟩
+    unfold middleExit
+    by_cases he : (t.mem x).isEmpty = true
+    · exact ⟨x, by simp [he]⟩
+    · have hne : t.mem x ≠ [] := fun e => he (by simp [e])
+      have hex := exit_exists t x l0 hl0 hne
+      simp only [he]
+      generalize hE : (if (exitJobs t x true).isEmpty = true then exitJobs t x false else exitJobs t x true) = exits
+      have hsub : ∀ k ∈ exits, k ∈ t.mem x := by
+        intro k hk
+        rw [← hE] at hk
+        split at hk
+        · exact (List.mem_filter.1 hk).1
+        · exact (List.mem_filter.1 hk).1
+      have hexits : exits ≠ [] := by
+        rw [← hE]
+        split
+        · exact hex
+        · rename_i h2
+          intro e; exact h2 (by simp [e])
+      have hlt := middleIndex_lt (List.length_pos_iff.2 hexits)
+      have hc : exits[middleIndex exits.length]? = some (exits[middleIndex exits.length]) :=
+        List.getElem?_eq_getElem hlt
+      generalize exits[middleIndex exits.length] = cand at hc
+      have hcm : cand ∈ t.mem x := hsub _ (List.mem_of_getElem? hc)
+      simp only [hc]
+      cases hcs : t.isSched cand with
+      | false => exact ⟨cand, by simp⟩
+      | true =>
+        have hb := hwf x (Or.inl rfl) hx cand hcm
+        have hcl : cand ∈ l0 := (C15.topo_perm_aux t x [] l0 hl0).mem_iff.2 hcm
+        obtain ⟨sub, hsub'⟩ := listing_fold_ok t n l0 [] lx hf cand hcl hcs
+        obtain ⟨r, hr⟩ := ih F' cand sub hcs
+          (fun s' hs' => hwf s' (Or.inr (by
+            rcases hs' with rfl | hs'
+            · exact Desc.child hx hcm
+            · exact Desc.deeper hx hcm hs')))
+          (by omega) hsub'
+        exact ⟨r, by simpa using hr⟩
+
+theorem edgesOf_total (t : T) (F j : Nat)
+    (hexit : ∀ r ∈ t.req j, t.isSched r = true → ∃ x, middleExit t F r = .ok x)
+    (hentry : t.isSched j = true → ∃ x, middleEntry t F j = .ok x) :
+    ∃ es, edgesOf t F j = .ok es := by
+  unfold edgesOf
+  apply foldlM_ok_of_steps
+  intro r hr acc
+  cases hj : t.isSched j with
+  | true =>
+    obtain ⟨dst, hdst⟩ := hentry hj
+    cases hrs : t.isSched r with
+    | true =>
+      obtain ⟨src, hsrc⟩ := hexit r hr hrs
+      simp [hsrc, hdst]
+    | false => simp [hdst]
+  | false =>
+    cases hrs : t.isSched r with
+    | true =>
+      obtain ⟨src, hsrc⟩ := hexit r hr hrs
+      simp [hsrc]
+    | false => simp
+
+/-- `_dot_body` succeeds on every tree on which `listing` does (topological order found at every level, i.e. no
+    cycle and no requirement outside its scheduler): in particular empty nested schedulers, required or
+    requiring, no longer make it raise.  `hwf`: members have larger ids, below `n` (what the harness generates);
+    `hF`: the fuel of the `_middle_*_job` descents is at least `n` (the driver uses `n + 1`). -/
+theorem dotBodyWith_total (t : T) (anch : List Nat) (F fuel s : Nat) (l : List Nat)
+    (hs : t.isSched s = true)
+    (hwf : ∀ s', (s' = s ∨ Desc t s s') → t.isSched s' = true → ∀ k ∈ t.mem s', s' < k ∧ k < t.n)
+    (hF : t.n ≤ F)
+    (hl : listing t fuel s = .ok l) :
+    ∃ items, dotBodyWith t anch F fuel s = .ok items := by
+  induction fuel generalizing s l with
+  | zero => simp [listing] at hl
+  | succ n ih =>
+    obtain ⟨l0, hl0, hf⟩ := listing_succ t n s l hl
+    unfold dotBodyWith
+    simp only [hl0]
+    apply foldlM_ok_of_steps
+    intro j hj acc
+    have hsubset := C15.topo_subset t s [] l0 hl0
+    have hjm : j ∈ t.mem s := hsubset j hj
+    have hwfj : ∀ k, k ∈ t.mem s → ∀ s', (s' = k ∨ Desc t k s') → t.isSched s' = true →
+        ∀ k' ∈ t.mem s', s' < k' ∧ k' < t.n := by
+      intro k hk s' hs'
+      refine hwf s' (Or.inr ?_)
+      rcases hs' with rfl | hs'
+      · exact Desc.child hs hk
+      · exact Desc.deeper hs hk hs'
+    have hbound : ∀ k, k ∈ t.mem s → t.n - k < F := by
+      intro k hk
+      have := hwf s (Or.inl rfl) hs k hk
+      omega
+    obtain ⟨es, hes⟩ : ∃ es, edgesOf t F j = .ok es := by
+      apply edgesOf_total
+      · intro r hr hrs
+        obtain ⟨a, b, hab⟩ := List.append_of_mem hj
+        have hra : r ∈ l0 := by
+          have := C15.topo_order_inv t s l0 hl0 a j b hab r hr
+          rw [hab]; simp [this]
+        obtain ⟨sub, hsub⟩ := listing_fold_ok t n l0 [] l hf r hra hrs
+        exact middleExit_total t n F r sub hrs (hwfj r (hsubset r hra)) (hbound r (hsubset r hra)) hsub
+      · intro hjs
+        obtain ⟨sub, hsub⟩ := listing_fold_ok t n l0 [] l hf j hj hjs
+        exact middleEntry_total t n F j sub hjs (hwfj j hjm) (hbound j hjm) hsub
+    cases hjs : t.isSched j with
+    | true =>
+      obtain ⟨sub, hsub⟩ := listing_fold_ok t n l0 [] l hf j hj hjs
+      obtain ⟨items, hitems⟩ := ih j sub hjs (hwfj j hjm) hsub
+      simp [hitems, hes]
+    | false => simp [hes]
+
+/-! ### which empty schedulers get their invisible node: the anchored ones -/
+
+theorem foldlM_inv_mem {α β ε : Type} (step : β → α → Except ε β) (Q : β → Prop) :
+    ∀ (l : List α), (∀ a ∈ l, ∀ acc res, Q acc → step acc a = .ok res → Q res) →
+      ∀ (acc res : β), Q acc → l.foldlM step acc = .ok res → Q res := by
+  intro l
+  induction l with
+  | nil =>
+    intro _ acc res hq h
+    simp [pure, Except.pure] at h
+    subst h; exact hq
+  | cons a l ih =>
+    intro hstep acc res hq h
+    rw [List.foldlM_cons] at h
+    cases hs : step acc a with
+    | error e => rw [hs] at h; simp [bind, Except.bind] at h
+    | ok r =>
+      rw [hs] at h
+      exact ih (fun b hb => hstep b (by simp [hb])) r res (hstep a (by simp) acc r hq hs) h
+
+@[simp] theorem anchorsOf_nil (t : T) : anchorsOf t [] = [] := rfl
+@[simp] theorem anchorsOf_append (t : T) (a b : List Item) : anchorsOf t (a ++ b) = anchorsOf t a ++ anchorsOf t b := by
+  simp [anchorsOf]
+@[simp] theorem anchorsOf_cons_node (t : T) (j : Nat) (r : List Item) : anchorsOf t (.node j :: r) = anchorsOf t r := by
+  simp [anchorsOf]
+@[simp] theorem anchorsOf_cons_open (t : T) (j : Nat) (r : List Item) :
+    anchorsOf t (.openCluster j :: r) = anchorsOf t r := by
+  simp [anchorsOf]
+@[simp] theorem anchorsOf_cons_close (t : T) (r : List Item) : anchorsOf t (.close :: r) = anchorsOf t r := by
+  simp [anchorsOf]
+@[simp] theorem anchorsOf_cons_holder (t : T) (j : Nat) (r : List Item) :
+    anchorsOf t (.holder j :: r) = anchorsOf t r := by
+  simp [anchorsOf]
+@[simp] theorem anchorsOf_holderOf (t : T) (anch : List Nat) (j : Nat) : anchorsOf t (holderOf t anch j) = [] := by
+  unfold holderOf; split <;> simp
+
+/-- the anchored schedulers are the empty schedulers that are the tail or the head of an edge item -/
+theorem mem_anchorsOf (t : T) (items : List Item) (x : Nat) :
+    x ∈ anchorsOf t items ↔
+      (t.isSched x = true ∧ t.mem x = []) ∧
+        ∃ src dst lh lt, Item.edge src dst lh lt ∈ items ∧ (src = x ∨ dst = x) := by
+  unfold anchorsOf
+  rw [List.mem_flatMap]
+  constructor
+  · rintro ⟨i, hi, hx⟩
+    cases i with
+    | edge src dst lh lt =>
+      simp only [List.mem_filter, List.mem_cons, List.not_mem_nil, or_false, Bool.and_eq_true,
+        List.isEmpty_iff] at hx
+      exact ⟨hx.2, src, dst, lh, lt, hi, by rcases hx.1 with h | h <;> simp [h]⟩
+    | _ => simp at hx
+  · rintro ⟨hx, src, dst, lh, lt, hi, hsd⟩
+    refine ⟨_, hi, ?_⟩
+    simp only [List.mem_filter, List.mem_cons, List.not_mem_nil, or_false, Bool.and_eq_true, List.isEmpty_iff]
+    exact ⟨by rcases hsd with h | h <;> simp [h], hx⟩
+
+/-- the edges, hence the anchors, of a run of `_dot_body` do not depend on the `_dot_anchor` flags -/
+theorem dotBodyWith_anchors (t : T) (a1 a2 : List Nat) (F : Nat) : ∀ (fuel s : Nat) (i1 i2 : List Item),
+    dotBodyWith t a1 F fuel s = .ok i1 → dotBodyWith t a2 F fuel s = .ok i2 →
+    anchorsOf t i1 = anchorsOf t i2 := by
+  intro fuel
+  induction fuel with
+  | zero => intro s i1 i2 h; simp [dotBodyWith] at h
+  | succ n ih =>
+    intro s i1 i2 h1 h2
+    obtain ⟨l0, hl0, hf1⟩ := dotBodyWith_succ t a1 F n s i1 h1
+    obtain ⟨l0', hl0', hf2⟩ := dotBodyWith_succ t a2 F n s i2 h2
+    rw [hl0] at hl0'
+    injection hl0' with hl0'
+    subst hl0'
+    refine foldlM_rel _ _ (fun (a b : List Item) => anchorsOf t a = anchorsOf t b) ?_ l0 [] [] i1 i2 rfl hf1 hf2
+    intro j a b a' b' hr hs1 hs2
+    obtain ⟨es, hes, hc1⟩ := dotBodyWith_step t a1 F n j a a' hs1
+    obtain ⟨es', hes', hc2⟩ := dotBodyWith_step t a2 F n j b b' hs2
+    rw [hes] at hes'
+    injection hes' with hes'
+    subst hes'
+    rcases hc1 with ⟨hj, sub, hsub, rfl⟩ | ⟨hj, rfl⟩
+    · rcases hc2 with ⟨_, sub', hsub', rfl⟩ | ⟨hj', _⟩
+      · simp [hr, ih j sub sub' hsub hsub']
+      · rw [hj] at hj'; cases hj'
+    · rcases hc2 with ⟨hj', _⟩ | ⟨_, rfl⟩
+      · rw [hj] at hj'; cases hj'
+      · simp [hr]
+
+/-- `dot_format()`'s items are those of one run of `_dot_body` whose `_dot_anchor` flags are the anchors of the
+    result itself -/
+theorem dotBody_with (t : T) (F fuel s : Nat) (items : List Item) (h : dotBody t F fuel s = .ok items) :
+    dotBodyWith t (anchorsOf t items) F fuel s = .ok items := by
+  unfold dotBody at h
+  split at h
+  · cases h
+  · rename_i i0 h0
+    rw [← dotBodyWith_anchors t [] (anchorsOf t i0) F fuel s i0 items h0 h]
+    exact h
+
+theorem mem_holderOf (t : T) (anch : List Nat) (j : Nat) (i : Item) :
+    i ∈ holderOf t anch j ↔ i = Item.holder j ∧ t.mem j = [] ∧ j ∈ anch := by
+  unfold holderOf
+  split
+  · rename_i h
+    simp only [Bool.and_eq_true, List.isEmpty_iff, List.contains_eq_mem, decide_eq_true_eq] at h
+    simp [h]
+  · rename_i h
+    simp only [Bool.and_eq_true, List.isEmpty_iff, List.contains_eq_mem, decide_eq_true_eq] at h
+    simp only [List.not_mem_nil, false_iff]
+    intro hh; exact h hh.2
+
+theorem goodEdges_no_holder (t : T) (es : List Item) (h : ∀ i ∈ es, GoodEdge t i) (x : Nat) :
+    Item.holder x ∉ es := fun hx => by simpa [GoodEdge] using h _ hx
+
+theorem goodEdges_no_open (t : T) (es : List Item) (h : ∀ i ∈ es, GoodEdge t i) (x : Nat) :
+    Item.openCluster x ∉ es := fun hx => by simpa [GoodEdge] using h _ hx
+
+/-- a holder item is the one of an empty, anchored scheduler whose cluster is in the list -/
+theorem dotBodyWith_holder_sound (t : T) (anch : List Nat) (F fuel s : Nat) (items : List Item)
+    (h : dotBodyWith t anch F fuel s = .ok items) :
+    ∀ x, Item.holder x ∈ items → Item.openCluster x ∈ items ∧ t.mem x = [] ∧ x ∈ anch := by
+  induction fuel generalizing s items with
+  | zero => simp [dotBodyWith] at h
+  | succ n ih =>
+    obtain ⟨l0, hl0, hf⟩ := dotBodyWith_succ t anch F n s items h
+    refine foldlM_inv _
+      (fun (a : List Item) => ∀ x, Item.holder x ∈ a → Item.openCluster x ∈ a ∧ t.mem x = [] ∧ x ∈ anch)
+      ?_ l0 [] items (by simp) hf
+    intro j a a' hq hs
+    obtain ⟨es, hes, hcase⟩ := dotBodyWith_step t anch F n j a a' hs
+    obtain ⟨_, hg⟩ := edgesOf_spec t F j es hes
+    have hnh := goodEdges_no_holder t es hg
+    rcases hcase with ⟨hj, sub, hsub, rfl⟩ | ⟨hj, rfl⟩
+    · intro x hx
+      simp only [List.mem_append, List.mem_cons, reduceCtorEq, false_or] at hx
+      rcases hx with ((hx | hx) | hx) | hx
+      · obtain ⟨h1, h2⟩ := hq x hx
+        exact ⟨by simp [h1], h2⟩
+      · obtain ⟨h1, h2⟩ := (mem_holderOf t anch j _).1 hx
+        injection h1 with h1
+        subst h1
+        exact ⟨by simp, h2⟩
+      · obtain ⟨h1, h2⟩ := ih j sub hsub x hx
+        exact ⟨by simp [h1], h2⟩
+      · exact absurd hx (hnh x)
+    · intro x hx
+      simp only [List.mem_append, List.mem_cons, reduceCtorEq, false_or] at hx
+      rcases hx with hx | hx
+      · obtain ⟨h1, h2⟩ := hq x hx
+        exact ⟨by simp [h1], h2⟩
+      · exact absurd hx (hnh x)
+
+/-- a cluster is the one of a scheduler; when that scheduler is empty and anchored, its holder is in the list -/
+theorem dotBodyWith_open_spec (t : T) (anch : List Nat) (F fuel s : Nat) (items : List Item)
+    (h : dotBodyWith t anch F fuel s = .ok items) :
+    ∀ x, Item.openCluster x ∈ items →
+      t.isSched x = true ∧ (t.mem x = [] → x ∈ anch → Item.holder x ∈ items) := by
+  induction fuel generalizing s items with
+  | zero => simp [dotBodyWith] at h
+  | succ n ih =>
+    obtain ⟨l0, hl0, hf⟩ := dotBodyWith_succ t anch F n s items h
+    refine foldlM_inv _
+      (fun (a : List Item) => ∀ x, Item.openCluster x ∈ a →
+        t.isSched x = true ∧ (t.mem x = [] → x ∈ anch → Item.holder x ∈ a))
+      ?_ l0 [] items (by simp) hf
+    intro j a a' hq hs
+    obtain ⟨es, hes, hcase⟩ := dotBodyWith_step t anch F n j a a' hs
+    obtain ⟨_, hg⟩ := edgesOf_spec t F j es hes
+    have hno := goodEdges_no_open t es hg
+    rcases hcase with ⟨hj, sub, hsub, rfl⟩ | ⟨hj, rfl⟩
+    · intro x hx
+      simp only [List.mem_append, List.mem_cons, reduceCtorEq, false_or] at hx
+      rcases hx with ((hx | hx | hx) | hx) | hx
+      · obtain ⟨h1, h2⟩ := hq x hx
+        exact ⟨h1, fun e ha => by simp [h2 e ha]⟩
+      · injection hx with hx
+        subst hx
+        refine ⟨hj, fun e ha => ?_⟩
+        have : Item.holder x ∈ holderOf t anch x := (mem_holderOf t anch x _).2 ⟨rfl, e, ha⟩
+        simp [this]
+      · exact absurd ((mem_holderOf t anch j _).1 hx).1 (by simp)
+      · obtain ⟨h1, h2⟩ := ih j sub hsub x hx
+        exact ⟨h1, fun e ha => by simp [h2 e ha]⟩
+      · exact absurd hx (hno x)
+    · intro x hx
+      simp only [List.mem_append, List.mem_cons, reduceCtorEq, false_or] at hx
+      rcases hx with hx | hx
+      · obtain ⟨h1, h2⟩ := hq x hx
+        exact ⟨h1, fun e ha => by simp [h2 e ha]⟩
+      · exact absurd hx (hno x)
+
+/-- **which schedulers get an invisible node**: `j` has a holder item iff it is a nested scheduler of the document
+    (its cluster is there), it has no jobs, and it is the tail or the head of some edge item -/
+theorem holder_iff_anchored (t : T) (F fuel s : Nat) (items : List Item)
+    (h : dotBody t F fuel s = .ok items) (j : Nat) :
+    Item.holder j ∈ items ↔
+      Item.openCluster j ∈ items ∧ t.mem j = [] ∧
+        ∃ src dst lh lt, Item.edge src dst lh lt ∈ items ∧ (src = j ∨ dst = j) := by
+  have hW := dotBody_with t F fuel s items h
+  constructor
+  · intro hh
+    obtain ⟨h1, h2, h3⟩ := dotBodyWith_holder_sound t _ F fuel s items hW j hh
+    exact ⟨h1, h2, ((mem_anchorsOf t items j).1 h3).2⟩
+  · rintro ⟨h1, h2, h3⟩
+    obtain ⟨hs, hh⟩ := dotBodyWith_open_spec t _ F fuel s items hW j h1
+    exact hh h2 ((mem_anchorsOf t items j).2 ⟨⟨hs, h2⟩, h3⟩)
+
+/-! ### every edge endpoint is a node of the document -/
+
+/-- where the edges of a job come from -/
+theorem edgesOf_origin (t : T) (F j : Nat) (es : List Item) (h : edgesOf t F j = .ok es) :
+    ∀ i ∈ es, ∃ src dst lh lt r, i = Item.edge src dst lh lt ∧ r ∈ t.req j ∧
+      ((t.isSched r = false ∧ src = r) ∨ (t.isSched r = true ∧ middleExit t F r = .ok src)) ∧
+      ((t.isSched j = false ∧ dst = j) ∨ (t.isSched j = true ∧ middleEntry t F j = .ok dst)) := by
+  unfold edgesOf at h
+  have := foldlM_prefix_inv _
+    (fun (pre : List Nat) (acc : List Item) =>
+      ∀ i ∈ acc, ∃ src dst lh lt r, i = Item.edge src dst lh lt ∧ r ∈ pre ∧
+        ((t.isSched r = false ∧ src = r) ∨ (t.isSched r = true ∧ middleExit t F r = .ok src)) ∧
+        ((t.isSched j = false ∧ dst = j) ∨ (t.isSched j = true ∧ middleEntry t F j = .ok dst)))
+    ?_ (t.req j) [] [] es (by simp) h
+  · simpa using this
+  · intro pre r acc res hq hs
+    have hold : ∀ i ∈ acc, ∃ src dst lh lt r', i = Item.edge src dst lh lt ∧ r' ∈ pre ++ [r] ∧
+        ((t.isSched r' = false ∧ src = r') ∨ (t.isSched r' = true ∧ middleExit t F r' = .ok src)) ∧
+        ((t.isSched j = false ∧ dst = j) ∨ (t.isSched j = true ∧ middleEntry t F j = .ok dst)) := by
+      intro i hi
+      obtain ⟨src, dst, lh, lt, r', e, hr', h1, h2⟩ := hq i hi
+      exact ⟨src, dst, lh, lt, r', e, by simp [hr'], h1, h2⟩
+    have hnew : ∀ src dst lh lt, res = acc ++ [Item.edge src dst lh lt] →
+        ((t.isSched r = false ∧ src = r) ∨ (t.isSched r = true ∧ middleExit t F r = .ok src)) →
+        ((t.isSched j = false ∧ dst = j) ∨ (t.isSched j = true ∧ middleEntry t F j = .ok dst)) →
+        ∀ i ∈ res, ∃ src dst lh lt r', i = Item.edge src dst lh lt ∧ r' ∈ pre ++ [r] ∧
+        ((t.isSched r' = false ∧ src = r') ∨ (t.isSched r' = true ∧ middleExit t F r' = .ok src)) ∧
+        ((t.isSched j = false ∧ dst = j) ∨ (t.isSched j = true ∧ middleEntry t F j = .ok dst)) := by
+      intro src dst lh lt e h1 h2 i hi
+      rw [e] at hi
+      rcases List.mem_append.1 hi with hi | hi
+      · exact hold i hi
+      · simp at hi
+        exact ⟨src, dst, lh, lt, r, hi, by simp, h1, h2⟩
+    split at hs
+    · rename_i hj
+      split at hs
+      · rename_i hr
+        split at hs
+        · simp at hs
+        · rename_i src hsrc
+          split at hs
+          · simp at hs
+          · rename_i dst hdst
+            injection hs with hs
+            exact hnew _ _ _ _ hs.symm (Or.inr ⟨hr, hsrc⟩) (Or.inr ⟨hj, hdst⟩)
+      · rename_i hr
+        split at hs
+        · simp at hs
+        · rename_i dst hdst
+          injection hs with hs
+          exact hnew _ _ _ _ hs.symm (Or.inl ⟨by simpa using hr, rfl⟩) (Or.inr ⟨hj, hdst⟩)
+    · rename_i hj
+      split at hs
+      · rename_i hr
+        split at hs
+        · simp at hs
+        · rename_i src hsrc
+          injection hs with hs
+          exact hnew _ _ _ _ hs.symm (Or.inr ⟨hr, hsrc⟩) (Or.inl ⟨by simpa using hj, rfl⟩)
+      · rename_i hr
+        injection hs with hs
+        exact hnew _ _ _ _ hs.symm (Or.inl ⟨by simpa using hr, rfl⟩) (Or.inl ⟨by simpa using hj, rfl⟩)
+
+/-- what each job of the topological order contributes to the result of the `_dot_body` fold -/
+theorem dotFold_contrib (t : T) (anch : List Nat) (F n : Nat) : ∀ (l0 : List Nat) (acc res : List Item),
+    l0.foldlM (m := Except Err) (fun acc j =>
+        if t.isSched j then
+          match dotBodyWith t anch F n j with
+          | .error e => .error e
+          | .ok sub =>
+            match edgesOf t F j with
+            | .error e => .error e
+            | .ok es => .ok (acc ++ Item.openCluster j :: holderOf t anch j ++ sub ++ Item.close :: es)
+        else
+          match edgesOf t F j with
+          | .error e => .error e
+          | .ok es => .ok (acc ++ Item.node j :: es)) acc = .ok res →
+    (∀ i ∈ acc, i ∈ res) ∧ ∀ k ∈ l0, ∃ es, edgesOf t F k = .ok es ∧ (∀ i ∈ es, i ∈ res) ∧
+      ((t.isSched k = true ∧ Item.openCluster k ∈ res ∧
+          ∃ sub, dotBodyWith t anch F n k = .ok sub ∧ ∀ i ∈ sub, i ∈ res) ∨
+       (t.isSched k = false ∧ Item.node k ∈ res)) := by
+  intro l0
+  induction l0 with
+  | nil =>
+    intro acc res h
+    simp [pure, Except.pure] at h
+    subst h
+    exact ⟨fun _ hi => hi, fun k hk => by cases hk⟩
+  | cons a l0 ih =>
+    intro acc res h
+    obtain ⟨mid, hmid, hrest⟩ := C15.foldlM_cons_ok _ _ _ _ _ h
+    obtain ⟨hsub, hk⟩ := ih mid res hrest
+    obtain ⟨es, hes, hcase⟩ := dotBodyWith_step t anch F n a acc mid hmid
+    refine ⟨fun i hi => hsub i ?_, ?_⟩
+    · rcases hcase with ⟨_, sub, _, rfl⟩ | ⟨_, rfl⟩ <;> simp [hi]
+    · intro k hk'
+      rcases List.mem_cons.1 hk' with rfl | hk'
+      · refine ⟨es, hes, fun i hi => hsub i ?_, ?_⟩
+        · rcases hcase with ⟨_, sub, _, rfl⟩ | ⟨_, rfl⟩ <;> simp [hi]
+        · rcases hcase with ⟨hj, sub, hsb, rfl⟩ | ⟨hj, rfl⟩
+          · exact Or.inl ⟨hj, hsub _ (by simp), sub, hsb, fun i hi => hsub i (by simp [hi])⟩
+          · exact Or.inr ⟨hj, hsub _ (by simp)⟩
+      · exact hk k hk'
+
+/-- the job `_middle_exit_job` of scheduler `x` returns is `x` itself or is rendered inside the cluster of `x` -/
+theorem middleExit_in_items (t : T) (anch : List Nat) (F0 : Nat) : ∀ (fuel F x : Nat) (sub : List Item) (r : Nat),
+    dotBodyWith t anch F0 fuel x = .ok sub → middleExit t F x = .ok r →
+    r = x ∨ (t.isSched r = true ∧ Item.openCluster r ∈ sub) ∨ (t.isSched r = false ∧ Item.node r ∈ sub) := by
+  intro fuel
+  induction fuel with
+  | zero => intro F x sub r h; simp [dotBodyWith] at h
+  | succ n ih =>
+    intro F x sub r h hm
+    obtain ⟨l0, hl0, hf⟩ := dotBodyWith_succ t anch F0 n x sub h
+    obtain ⟨_, hk⟩ := dotFold_contrib t anch F0 n l0 [] sub hf
+    cases F with
+    | zero => simp [middleExit] at hm
+    | succ F' =>
+      unfold middleExit at hm
+      simp only at hm
+      split at hm
+      · injection hm with hm; exact Or.inl hm.symm
+      · split at hm
+        · simp at hm
+        · rename_i cand hc
+          have hcm : cand ∈ t.mem x := by
+            have := List.mem_of_getElem? hc
+            split at this
+            · exact (List.mem_filter.1 this).1
+            · exact (List.mem_filter.1 this).1
+          have hcl : cand ∈ l0 := (C15.topo_perm_aux t x [] l0 hl0).mem_iff.2 hcm
+          obtain ⟨es, _, _, hcase⟩ := hk cand hcl
+          split at hm
+          · rename_i hcs
+            rcases hcase with ⟨_, hopen, subc, hsubc, hin⟩ | ⟨hcs', _⟩
+            · rcases ih F' cand subc r hsubc hm with rfl | ⟨h1, h2⟩ | ⟨h1, h2⟩
+              · exact Or.inr (Or.inl ⟨hcs, hopen⟩)
+              · exact Or.inr (Or.inl ⟨h1, hin _ h2⟩)
+              · exact Or.inr (Or.inr ⟨h1, hin _ h2⟩)
+            · rw [hcs] at hcs'; cases hcs'
+          · rename_i hcs
+            injection hm with hm
+            subst hm
+            rcases hcase with ⟨hcs', _⟩ | ⟨hcs', hnode⟩
+            · exact absurd hcs' hcs
+            · exact Or.inr (Or.inr ⟨hcs', hnode⟩)
+
+/-- the same for `_middle_entry_job` -/
+theorem middleEntry_in_items (t : T) (anch : List Nat) (F0 : Nat) : ∀ (fuel F x : Nat) (sub : List Item) (r : Nat),
+    dotBodyWith t anch F0 fuel x = .ok sub → middleEntry t F x = .ok r →
+    r = x ∨ (t.isSched r = true ∧ Item.openCluster r ∈ sub) ∨ (t.isSched r = false ∧ Item.node r ∈ sub) := by
+  intro fuel
+  induction fuel with
+  | zero => intro F x sub r h; simp [dotBodyWith] at h
+  | succ n ih =>
+    intro F x sub r h hm
+    obtain ⟨l0, hl0, hf⟩ := dotBodyWith_succ t anch F0 n x sub h
+    obtain ⟨_, hk⟩ := dotFold_contrib t anch F0 n l0 [] sub hf
+    cases F with
+    | zero => simp [middleEntry] at hm
+    | succ F' =>
+      unfold middleEntry at hm
+      simp only at hm
+      split at hm
+      · injection hm with hm; exact Or.inl hm.symm
+      · split at hm
+        · simp at hm
+        · rename_i cand hc
+          have hcm : cand ∈ t.mem x := (List.mem_filter.1 (List.mem_of_getElem? hc)).1
+          have hcl : cand ∈ l0 := (C15.topo_perm_aux t x [] l0 hl0).mem_iff.2 hcm
+          obtain ⟨es, _, _, hcase⟩ := hk cand hcl
+          split at hm
+          · rename_i hcs
+            rcases hcase with ⟨_, hopen, subc, hsubc, hin⟩ | ⟨hcs', _⟩
+            · rcases ih F' cand subc r hsubc hm with rfl | ⟨h1, h2⟩ | ⟨h1, h2⟩
+              · exact Or.inr (Or.inl ⟨hcs, hopen⟩)
+              · exact Or.inr (Or.inl ⟨h1, hin _ h2⟩)
+              · exact Or.inr (Or.inr ⟨h1, hin _ h2⟩)
+            · rw [hcs] at hcs'; cases hcs'
+          · rename_i hcs
+            injection hm with hm
+            subst hm
+            rcases hcase with ⟨hcs', _⟩ | ⟨hcs', hnode⟩
+            · exact absurd hcs' hcs
+            · exact Or.inr (Or.inr ⟨hcs', hnode⟩)
+
+/-- an edge endpoint that is a scheduler is a nested scheduler of the document: its cluster is in the list -/
+theorem dotBodyWith_endpoint_listed (t : T) (anch : List Nat) (F : Nat) : ∀ (fuel s : Nat) (items : List Item),
+    dotBodyWith t anch F fuel s = .ok items →
+    ∀ src dst lh lt, Item.edge src dst lh lt ∈ items →
+      (t.isSched src = true → Item.openCluster src ∈ items) ∧
+      (t.isSched dst = true → Item.openCluster dst ∈ items) := by
+  intro fuel
+  induction fuel with
+  | zero => intro s items h; simp [dotBodyWith] at h
+  | succ n ih =>
+    intro s items h
+    obtain ⟨l0, hl0, hf⟩ := dotBodyWith_succ t anch F n s items h
+    obtain ⟨_, hk⟩ := dotFold_contrib t anch F n l0 [] items hf
+    refine foldlM_inv_mem _
+      (fun (a : List Item) => ∀ src dst lh lt, Item.edge src dst lh lt ∈ a →
+        (t.isSched src = true → Item.openCluster src ∈ items) ∧
+        (t.isSched dst = true → Item.openCluster dst ∈ items))
+      l0 ?_ [] items (by simp) hf
+    intro j hj a a' hq hs
+    obtain ⟨es, hes, hcase⟩ := dotBodyWith_step t anch F n j a a' hs
+    obtain ⟨es', hes', _, hjc⟩ := hk j hj
+    rw [hes] at hes'
+    injection hes' with hes'
+    subst hes'
+    have horig := edgesOf_origin t F j es hes
+    -- the edges of `es`
+    have hes_ok : ∀ src dst lh lt, Item.edge src dst lh lt ∈ es →
+        (t.isSched src = true → Item.openCluster src ∈ items) ∧
+        (t.isSched dst = true → Item.openCluster dst ∈ items) := by
+      intro src dst lh lt hm
+      obtain ⟨src', dst', lh', lt', r, e, hr, hsrc, hdst⟩ := horig _ hm
+      injection e with e1 e2 e3 e4
+      subst e1; subst e2
+      constructor
+      · intro hss
+        rcases hsrc with ⟨h1, h2⟩ | ⟨hrs, hmid⟩
+        · subst h2; rw [hss] at h1; cases h1
+        · obtain ⟨a0, b0, hab⟩ := List.append_of_mem hj
+          have hra : r ∈ l0 := by
+            have := C15.topo_order_inv t s l0 hl0 a0 j b0 hab r hr
+            rw [hab]; simp [this]
+          obtain ⟨_, _, _, hrc⟩ := hk r hra
+          rcases hrc with ⟨_, hopen, subr, hsubr, hin⟩ | ⟨hrs', _⟩
+          · rcases middleExit_in_items t anch F n F r subr src hsubr hmid with rfl | ⟨_, h2⟩ | ⟨h1, _⟩
+            · exact hopen
+            · exact hin _ h2
+            · rw [hss] at h1; cases h1
+          · rw [hrs] at hrs'; cases hrs'
+      · intro hds
+        rcases hdst with ⟨h1, h2⟩ | ⟨hjs, hmid⟩
+        · subst h2; rw [hds] at h1; cases h1
+        · rcases hjc with ⟨_, hopen, subj, hsubj, hin⟩ | ⟨hjs', _⟩
+          · rcases middleEntry_in_items t anch F n F j subj dst hsubj hmid with rfl | ⟨_, h2⟩ | ⟨h1, _⟩
+            · exact hopen
+            · exact hin _ h2
+            · rw [hds] at h1; cases h1
+          · rw [hjs] at hjs'; cases hjs'
+    rcases hcase with ⟨hjs, sub, hsub, rfl⟩ | ⟨hjs, rfl⟩
+    · intro src dst lh lt hm
+      simp only [List.mem_append, List.mem_cons, reduceCtorEq, false_or] at hm
+      rcases hm with ((hm | hm) | hm) | hm
+      · exact hq _ _ _ _ hm
+      · exact absurd ((mem_holderOf t anch j _).1 hm).1 (by simp)
+      · rcases hjc with ⟨_, _, subj, hsubj, hin⟩ | ⟨hjs', _⟩
+        · rw [hsub] at hsubj
+          injection hsubj with hsubj
+          subst hsubj
+          obtain ⟨h1, h2⟩ := ih j sub hsub _ _ _ _ hm
+          exact ⟨fun hh => hin _ (h1 hh), fun hh => hin _ (h2 hh)⟩
+        · rw [hjs] at hjs'; cases hjs'
+      · exact hes_ok _ _ _ _ hm
+    · intro src dst lh lt hm
+      simp only [List.mem_append, List.mem_cons, reduceCtorEq, false_or] at hm
+      rcases hm with hm | hm
+      · exact hq _ _ _ _ hm
+      · exact hes_ok _ _ _ _ hm
+
+/-! ### the theorems about `dot_format()`'s items (`dotBody` = the second run of `_dot_body`) -/
+
+/-- the node items are, in order, the atomic jobs of `listing`; the cluster items the nested schedulers -/
+theorem dotBody_nodes (t : T) (F fuel s : Nat) (items : List Item) (l : List Nat)
+    (h : dotBody t F fuel s = .ok items) (hl : listing t fuel s = .ok l) :
+    items.filterMap (fun i => match i with | .node j => some j | _ => none) = l.filter (fun j => !t.isSched j) ∧
+    items.filterMap (fun i => match i with | .openCluster j => some j | _ => none) = l.filter (fun j => t.isSched j) :=
+  dotBodyWith_nodes t _ F fuel s items l (dotBody_with t F fuel s items h) hl
+
+/-- the invisible nodes are, in listing order, the nested schedulers without jobs that are anchored, i.e. (see
+    `mem_anchorsOf`) that are the tail or the head of some edge item of the list -/
+theorem dotBody_holders (t : T) (F fuel s : Nat) (items : List Item) (l : List Nat)
+    (h : dotBody t F fuel s = .ok items) (hl : listing t fuel s = .ok l) :
+    items.filterMap (fun i => match i with | .holder j => some j | _ => none) =
+      l.filter (fun j => t.isSched j && ((t.mem j).isEmpty && (anchorsOf t items).contains j)) :=
+  dotBodyWith_holders t _ F fuel s items l (dotBody_with t F fuel s items h) hl
+
+/-- the invisible node of an empty nested scheduler is inside its own cluster, which contains nothing else:
+    a `holder s` item comes right after `openCluster s` and right before the `close` of that cluster -/
+theorem dotBody_holder_place (t : T) (F fuel s : Nat) (items : List Item)
+    (h : dotBody t F fuel s = .ok items) :
+    ∀ pre j post, items = pre ++ Item.holder j :: post →
+      (∃ pre', pre = pre' ++ [Item.openCluster j]) ∧ ∃ post', post = Item.close :: post' :=
+  dotBodyWith_holder_place t _ F fuel s items (dotBody_with t F fuel s items h)
+
+theorem dotBody_brackets (t : T) (F fuel s : Nat) (items : List Item)
+    (h : dotBody t F fuel s = .ok items) : depthOk 0 items = true :=
+  dotBodyWith_brackets t _ F fuel s items (dotBody_with t F fuel s items h)
+
+theorem dotBody_edges (t : T) (F fuel s : Nat) (items : List Item) (l : List Nat)
+    (h : dotBody t F fuel s = .ok items) (hl : listing t fuel s = .ok l) :
+    (items.filterMap edgeKey).Perm (l.flatMap fun x => (t.req x).map fun r => (x, r)) :=
+  dotBodyWith_edges t _ F fuel s items l (dotBody_with t F fuel s items h) hl
+
+/-- edge endpoints: `src` (resp. `dst`) is an atomic job, or an empty scheduler (its invisible node) in which case
+    `ltail` (resp. `lhead`) names a cluster; the clusters `lhead`/`ltail` name are schedulers -/
 theorem dotBody_edge_endpoints (t : T) (F fuel s : Nat) (items : List Item)
     (h : dotBody t F fuel s = .ok items) :
     ∀ src dst lh lt, Item.edge src dst lh lt ∈ items →
-      t.isSched src = false ∧ t.isSched dst = false ∧
+      (t.isSched src = false ∨ (t.isSched src = true ∧ t.mem src = [] ∧ ∃ c, lt = some c)) ∧
+      (t.isSched dst = false ∨ (t.isSched dst = true ∧ t.mem dst = [] ∧ ∃ c, lh = some c)) ∧
       (∀ c, lh = some c → t.isSched c = true) ∧ (∀ c, lt = some c → t.isSched c = true) :=
-  dotBody_allGood t F fuel s items h
+  dotBodyWith_edge_endpoints t _ F fuel s items (dotBody_with t F fuel s items h)
+
+/-- every edge endpoint is a node of the document: an endpoint that is a scheduler (necessarily an empty one, see
+    `dotBody_edge_endpoints`; an atomic endpoint has its `node` item by `dotBody_nodes`) has its `holder` item -/
+theorem edge_endpoint_has_node (t : T) (F fuel s : Nat) (items : List Item)
+    (h : dotBody t F fuel s = .ok items) :
+    ∀ src dst lh lt, Item.edge src dst lh lt ∈ items →
+      (t.isSched src = true → Item.holder src ∈ items) ∧
+      (t.isSched dst = true → Item.holder dst ∈ items) := by
+  intro src dst lh lt hm
+  have hW := dotBody_with t F fuel s items h
+  obtain ⟨hl1, hl2⟩ := dotBodyWith_endpoint_listed t _ F fuel s items hW src dst lh lt hm
+  obtain ⟨he1, he2, _⟩ := dotBody_edge_endpoints t F fuel s items h src dst lh lt hm
+  constructor
+  · intro hs
+    rcases he1 with he1 | ⟨_, he1, _⟩
+    · rw [hs] at he1; cases he1
+    · exact (holder_iff_anchored t F fuel s items h src).2 ⟨hl1 hs, he1, src, dst, lh, lt, hm, Or.inl rfl⟩
+  · intro hs
+    rcases he2 with he2 | ⟨_, he2, _⟩
+    · rw [hs] at he2; cases he2
+    · exact (holder_iff_anchored t F fuel s items h dst).2 ⟨hl2 hs, he2, src, dst, lh, lt, hm, Or.inr rfl⟩
+
+/-- `dot_format()`'s two runs of `_dot_body` succeed on every tree on which `listing` does (topological order found
+    at every level, i.e. no cycle and no requirement outside its scheduler): in particular empty nested schedulers,
+    required or requiring, no longer make it raise.  `hwf`: members have larger ids, below `n` (what the harness
+    generates); `hF`: the fuel of the `_middle_*_job` descents is at least `n` (the driver uses `n + 1`). -/
+theorem dotBody_total (t : T) (F fuel s : Nat) (l : List Nat)
+    (hs : t.isSched s = true)
+    (hwf : ∀ s', (s' = s ∨ Desc t s s') → t.isSched s' = true → ∀ k ∈ t.mem s', s' < k ∧ k < t.n)
+    (hF : t.n ≤ F)
+    (hl : listing t fuel s = .ok l) :
+    ∃ items, dotBody t F fuel s = .ok items := by
+  obtain ⟨i0, h0⟩ := dotBodyWith_total t [] F fuel s l hs hwf hF hl
+  obtain ⟨items, h1⟩ := dotBodyWith_total t (anchorsOf t i0) F fuel s l hs hwf hF hl
+  exact ⟨items, by unfold dotBody; rw [h0]; exact h1⟩
+
+/-- `dot_format()` raises only what `_set_sched_ids` raises: once the ids are assigned, the body is produced -/
+theorem dotItems_total (t : T) (fuel s nxt : Nat) (ids : List (Nat × Nat))
+    (hs : t.isSched s = true)
+    (hwf : ∀ s', (s' = s ∨ Desc t s s') → t.isSched s' = true → ∀ k ∈ t.mem s', s' < k ∧ k < t.n)
+    (hF : t.n ≤ fuel)
+    (hids : assignIds t fuel s 1 = .ok (nxt, ids)) :
+    ∃ items, dotItems t fuel s = .ok items := by
+  unfold dotItems
+  rw [hids]
+  exact dotBody_total t fuel fuel s _ hs hwf hF (C15.ids_consecutive t fuel s 1 nxt ids hids).2.2
 
 end AJ.Proofs.C20
-
